@@ -27,7 +27,11 @@ class C14(Check):
             "served by the static-server model; class 1 fetches info and "
             "every position (stored and never stored) over HTTP and locally "
             "and compares; class 2 gives each fetch 1-3 transport/server "
-            "faults at seeded request ordinals; distinct = distinct reach "
+            "faults at seeded request ordinals, through an accessor built "
+            "inside the fault window (fresh), built fault-free just before "
+            "(cold) or long-lived (warm), followed by fault-free reads on "
+            "the same accessor; datasets may have two scales and mixed "
+            ".shard / legacy layouts; distinct = distinct reach "
             "signature (dataset kind, server mode, URL spelling, zero-range "
             "policy, fault kinds fired x request role, outcome classes); "
             "non-trivial = at least one HTTP fetch compared with local bytes")
